@@ -108,6 +108,9 @@ fn install_panic_hook() {
         } else {
             "<non-string panic>".to_string()
         };
+        if std::env::var("VSIM_DEBUG_PANIC").is_ok() {
+            eprintln!("PANIC: {} @ {}", msg, loc);
+        }
         let mut g = PANIC_MSG.lock().unwrap_or_else(|e| e.into_inner());
         if g.is_none() {
             *g = Some(format!("{} @ {}", msg, loc));
